@@ -199,6 +199,17 @@ class Report:
             cov['analysis_errors'] = broken
         cov.update(self.extra)
         if index is not None:
+            gated = {}
+            for mname in sorted(index.consulted):
+                try:
+                    g = getattr(index.module(mname), 'gated', None)
+                except Exception:
+                    g = None
+                if g:
+                    gated[mname] = g
+            cov['equivalence_gate'] = {
+                'rule': 'a function whose canonical form (tdstatic/equiv.py) equals that of its reference version is a routine refactoring of it and is analysed in the reference spelling; all others are analysed as written',
+                'functions_read_in_reference_spelling': gated}
             cov['tree_digest'] = hashlib.sha1(
                 ''.join(sorted(index.module(m).digest for m in index.consulted)).encode()).hexdigest()
         ev = {
